@@ -1,1 +1,1650 @@
-//! (module owned by one property family; see AGENT_GUIDE.md)
+//! Oracles for the formatter checks (C05, C06, C07).
+//!
+//! Two independent parts:
+//!
+//! 1. **Code tokens** — an own, small Lua lexer (not emmylua's) turns a text into the sequence of
+//!    code tokens (comments and whitespace removed). `canon()` then applies *only* the rewrites a
+//!    given `LuaFormatConfig` allows the formatter to make (established by reading
+//!    crates/emmylua_formatter/src/formatter/{expr.rs,render/comments.rs}):
+//!      * statement `;` may be dropped unless `output.preserve_statement_semicolon`; empty statements
+//!        (per the project's own tree) may always be dropped. A `;` that is *not* optional
+//!        (`a = b; (f)()`) is caught by the statement-kind comparison (`compare_stats`).
+//!      * table separators `,`/`;` are one class (the formatter always prints `,`), a trailing
+//!        separator before `}` may be added or dropped under every policy (style conformance is not
+//!        this property);
+//!      * a short string may change its quote when `output.quote_style != Preserve`; strings are
+//!        then compared by decoded value;
+//!      * `f"s"`/`f{..}`/`f[[s]]` vs `f("s")`/`f({..})`/`f([[s]])` according to
+//!        `output.single_arg_call_parens`.
+//!    Every rewrite is optional per site (keeping the source token is never a violation) and
+//!    directional (adding a `;`, removing call parentheses under `Always`, … is not allowed).
+//!
+//! 2. **Comments** — taken from emmylua's own tree of the input and of the output (the property
+//!    speaks about "parse to the same structure", so the project's doc parser is the reference
+//!    here): flattened non-trivia token sequence of all comments, prefix tokens normalised for
+//!    dash spacing, and the pre-order list of doc node kinds.
+
+use emmylua_formatter::{LuaFormatConfig, QuoteStyle, SingleArgCallParens, TrailingComma};
+use emmylua_parser::{LuaKind, LuaLanguageLevel, LuaParser, LuaSyntaxKind, LuaSyntaxNode, LuaSyntaxTree, LuaTokenKind, ParserConfig};
+
+// ------------------------------------------------------------------------------------------
+// own lexer
+// ------------------------------------------------------------------------------------------
+
+#[derive(Clone, Copy, Debug, PartialEq, Eq)]
+pub enum LK {
+    Name,
+    Keyword,
+    Number,
+    Str,
+    LongStr,
+    Op,
+    Comment,
+    Unknown,
+}
+
+#[derive(Clone, Debug, PartialEq, Eq)]
+pub struct LTok {
+    pub kind: LK,
+    pub text: String,
+    pub start: usize,
+}
+
+pub const KEYWORDS: &[&str] = &[
+    "and", "break", "do", "else", "elseif", "end", "false", "for", "function", "goto", "if", "in", "local", "nil", "not", "or",
+    "repeat", "return", "then", "true", "until", "while",
+];
+
+fn long_bracket_level(b: &[u8], i: usize) -> Option<usize> {
+    // b[i] == '['; returns level if "[=*[" starts here
+    if b.get(i) != Some(&b'[') {
+        return None;
+    }
+    let mut j = i + 1;
+    while b.get(j) == Some(&b'=') {
+        j += 1;
+    }
+    if b.get(j) == Some(&b'[') { Some(j - i - 1) } else { None }
+}
+
+fn find_long_close(b: &[u8], mut i: usize, level: usize) -> usize {
+    // returns index just after the closing bracket, or len if unterminated
+    while i < b.len() {
+        if b[i] == b']' {
+            let mut j = i + 1;
+            while b.get(j) == Some(&b'=') {
+                j += 1;
+            }
+            if j - i - 1 == level && b.get(j) == Some(&b']') {
+                return j + 1;
+            }
+            i = j.max(i + 1);
+        } else {
+            i += 1;
+        }
+    }
+    b.len()
+}
+
+/// Lex Lua source text. Comments are returned as tokens of kind `Comment` (callers filter).
+/// The lexer is deliberately version-agnostic: it is only ever used to compare two texts.
+pub fn lex(text: &str) -> Vec<LTok> {
+    let b = text.as_bytes();
+    let mut out = Vec::new();
+    let mut i = 0usize;
+    // shebang
+    if b.starts_with(b"#!") {
+        let mut j = 0;
+        while j < b.len() && b[j] != b'\n' {
+            j += 1;
+        }
+        out.push(LTok { kind: LK::Comment, text: text[..j].to_string(), start: 0 });
+        i = j;
+    }
+    while i < b.len() {
+        let c = b[i];
+        // whitespace (ASCII; anything else falls through to Unknown/Name below)
+        if c == b' ' || c == b'\t' || c == b'\n' || c == b'\r' || c == 0x0b || c == 0x0c {
+            i += 1;
+            continue;
+        }
+        let start = i;
+        if c == b'-' && b.get(i + 1) == Some(&b'-') {
+            // comment
+            if let Some(level) = long_bracket_level(b, i + 2) {
+                let end = find_long_close(b, i + 2 + level + 2, level);
+                out.push(LTok { kind: LK::Comment, text: text[start..end].to_string(), start });
+                i = end;
+            } else {
+                let mut j = i;
+                while j < b.len() && b[j] != b'\n' && b[j] != b'\r' {
+                    j += 1;
+                }
+                out.push(LTok { kind: LK::Comment, text: text[start..j].to_string(), start });
+                i = j;
+            }
+            continue;
+        }
+        if c == b'[' {
+            if let Some(level) = long_bracket_level(b, i) {
+                let end = find_long_close(b, i + level + 2, level);
+                out.push(LTok { kind: LK::LongStr, text: text[start..end].to_string(), start });
+                i = end;
+                continue;
+            }
+        }
+        if c == b'"' || c == b'\'' {
+            let mut j = i + 1;
+            while j < b.len() {
+                let d = b[j];
+                if d == b'\\' {
+                    if b.get(j + 1) == Some(&b'z') {
+                        j += 2;
+                        while j < b.len() && (b[j] as char).is_ascii_whitespace() {
+                            j += 1;
+                        }
+                        continue;
+                    }
+                    if b.get(j + 1) == Some(&b'\r') && b.get(j + 2) == Some(&b'\n') {
+                        j += 3;
+                        continue;
+                    }
+                    j += 2;
+                    continue;
+                }
+                if d == c {
+                    j += 1;
+                    break;
+                }
+                if d == b'\n' || d == b'\r' {
+                    break; // unterminated
+                }
+                j += 1;
+            }
+            let j = j.min(b.len());
+            // keep on char boundary
+            let mut j2 = j;
+            while !text.is_char_boundary(j2) {
+                j2 += 1;
+            }
+            out.push(LTok { kind: LK::Str, text: text[start..j2].to_string(), start });
+            i = j2;
+            continue;
+        }
+        if c.is_ascii_digit() || (c == b'.' && b.get(i + 1).map(|d| d.is_ascii_digit()).unwrap_or(false)) {
+            let mut j = i;
+            let hex = c == b'0' && matches!(b.get(i + 1), Some(b'x') | Some(b'X'));
+            if hex {
+                j += 2;
+            }
+            while j < b.len() {
+                let d = b[j];
+                let is_exp = if hex { d == b'p' || d == b'P' } else { d == b'e' || d == b'E' };
+                if is_exp && matches!(b.get(j + 1), Some(b'+') | Some(b'-')) {
+                    j += 2;
+                } else if d.is_ascii_alphanumeric() || d == b'.' || d == b'_' {
+                    j += 1;
+                } else {
+                    break;
+                }
+            }
+            out.push(LTok { kind: LK::Number, text: text[start..j].to_string(), start });
+            i = j;
+            continue;
+        }
+        if c.is_ascii_alphabetic() || c == b'_' || c >= 0x80 {
+            let mut j = i;
+            while j < b.len() && (b[j].is_ascii_alphanumeric() || b[j] == b'_' || b[j] >= 0x80) {
+                j += 1;
+            }
+            let t = &text[start..j];
+            let kind = if KEYWORDS.contains(&t) { LK::Keyword } else { LK::Name };
+            out.push(LTok { kind, text: t.to_string(), start });
+            i = j;
+            continue;
+        }
+        // operators, longest match first
+        const OPS3: &[&str] = &["..."];
+        const OPS2: &[&str] = &["..", "==", "~=", "<=", ">=", "<<", ">>", "//", "::"];
+        let rest = &text[i..];
+        let mut matched = None;
+        for o in OPS3.iter().chain(OPS2.iter()) {
+            if rest.starts_with(o) {
+                matched = Some(o.len());
+                break;
+            }
+        }
+        let n = matched.unwrap_or(1);
+        let kind = if matched.is_some() || b"+-*/%^#&~|<>=(){}[];:,.".contains(&c) { LK::Op } else { LK::Unknown };
+        out.push(LTok { kind, text: text[start..start + n].to_string(), start });
+        i += n;
+    }
+    out
+}
+
+// ------------------------------------------------------------------------------------------
+// short string decoding
+// ------------------------------------------------------------------------------------------
+
+/// Decode a short string literal (with quotes) to bytes; None if malformed.
+pub fn decode_short_string(lit: &str) -> Option<Vec<u8>> {
+    let b = lit.as_bytes();
+    if b.len() < 2 {
+        return None;
+    }
+    let q = b[0];
+    if (q != b'"' && q != b'\'') || b[b.len() - 1] != q {
+        return None;
+    }
+    let body = &b[1..b.len() - 1];
+    let mut out = Vec::with_capacity(body.len());
+    let mut i = 0;
+    while i < body.len() {
+        let c = body[i];
+        if c != b'\\' {
+            if c == q {
+                return None;
+            }
+            out.push(c);
+            i += 1;
+            continue;
+        }
+        i += 1;
+        let e = *body.get(i)?;
+        match e {
+            b'a' => out.push(7),
+            b'b' => out.push(8),
+            b'f' => out.push(12),
+            b'n' => out.push(b'\n'),
+            b'r' => out.push(b'\r'),
+            b't' => out.push(b'\t'),
+            b'v' => out.push(11),
+            b'\\' => out.push(b'\\'),
+            b'"' => out.push(b'"'),
+            b'\'' => out.push(b'\''),
+            b'\n' => {
+                out.push(b'\n');
+                if body.get(i + 1) == Some(&b'\r') {
+                    i += 1;
+                }
+            }
+            b'\r' => {
+                out.push(b'\n');
+                if body.get(i + 1) == Some(&b'\n') {
+                    i += 1;
+                }
+            }
+            b'x' => {
+                let h = std::str::from_utf8(body.get(i + 1..i + 3)?).ok()?;
+                out.push(u8::from_str_radix(h, 16).ok()?);
+                i += 2;
+            }
+            b'z' => {
+                while body.get(i + 1).map(|d| (*d as char).is_ascii_whitespace()).unwrap_or(false) {
+                    i += 1;
+                }
+            }
+            b'u' => {
+                if body.get(i + 1) != Some(&b'{') {
+                    return None;
+                }
+                let mut j = i + 2;
+                let mut v: u64 = 0;
+                let mut nd = 0;
+                while let Some(d) = body.get(j) {
+                    if *d == b'}' {
+                        break;
+                    }
+                    v = v.checked_mul(16)?.checked_add((*d as char).to_digit(16)? as u64)?;
+                    nd += 1;
+                    j += 1;
+                }
+                if nd == 0 || body.get(j) != Some(&b'}') || v >= (1 << 31) {
+                    return None;
+                }
+                utf8_encode_ext(v as u32, &mut out);
+                i = j;
+            }
+            d if d.is_ascii_digit() => {
+                let mut v: u32 = 0;
+                let mut n = 0;
+                while n < 3 && body.get(i + n).map(|d| d.is_ascii_digit()).unwrap_or(false) {
+                    v = v * 10 + (body[i + n] - b'0') as u32;
+                    n += 1;
+                }
+                if v > 255 {
+                    return None;
+                }
+                out.push(v as u8);
+                i += n - 1;
+            }
+            _ => {
+                // unknown escape: keep verbatim (both sides are treated alike)
+                out.push(b'\\');
+                out.push(e);
+            }
+        }
+        i += 1;
+    }
+    Some(out)
+}
+
+fn utf8_encode_ext(x: u32, out: &mut Vec<u8>) {
+    // Lua's luaO_utf8esc: up to 6 bytes
+    if x < 0x80 {
+        out.push(x as u8);
+        return;
+    }
+    let mut buf = [0u8; 8];
+    let mut n = 1usize;
+    let mut x = x;
+    let mut mfb: u32 = 0x3f;
+    loop {
+        buf[8 - n] = (0x80 | (x & 0x3f)) as u8;
+        n += 1;
+        x >>= 6;
+        mfb >>= 1;
+        if x <= mfb {
+            break;
+        }
+    }
+    buf[8 - n] = (((!mfb) << 1) | x) as u8;
+    out.extend_from_slice(&buf[8 - n..]);
+}
+
+// ------------------------------------------------------------------------------------------
+// canonical code-token sequence
+// ------------------------------------------------------------------------------------------
+
+#[derive(Clone, Debug, PartialEq, Eq)]
+pub enum CTok {
+    /// any token compared by text
+    T(LK, String),
+    /// short string compared by decoded value (only when quote rewriting is enabled)
+    S(Vec<u8>),
+    /// table separator (`,` or `;` directly inside `{}`)
+    Sep,
+    /// statement semicolon kept because the config preserves them
+    Semi,
+}
+
+impl CTok {
+    pub fn show(&self) -> String {
+        match self {
+            CTok::T(_, s) => s.clone(),
+            CTok::S(v) => format!("<str:{}>", String::from_utf8_lossy(v)),
+            CTok::Sep => "<sep>".into(),
+            CTok::Semi => ";".into(),
+        }
+    }
+    /// structural class used in signatures (never the text of names / literals)
+    pub fn class(&self) -> String {
+        match self {
+            CTok::T(LK::Name, _) => "name".into(),
+            CTok::T(LK::Number, _) => "number".into(),
+            CTok::T(LK::Str, _) | CTok::S(_) => "string".into(),
+            CTok::T(LK::LongStr, _) => "long-string".into(),
+            CTok::T(LK::Keyword, s) => format!("kw:{s}"),
+            CTok::T(LK::Op, s) => format!("op:{s}"),
+            CTok::T(LK::Unknown, _) => "unknown-char".into(),
+            CTok::T(LK::Comment, _) => "comment".into(),
+            CTok::Sep => "table-sep".into(),
+            CTok::Semi => "semicolon".into(),
+        }
+    }
+}
+
+/// Sites where a directional, optional rewrite may have happened (in source order).
+#[derive(Clone, Debug, Default, PartialEq, Eq)]
+pub struct Sites {
+    /// per optional statement semicolon position class: number of optional `;` present
+    pub opt_semis: usize,
+    /// per table constructor (in order of its `}`), whether a trailing separator is present
+    pub trailing: Vec<bool>,
+    /// per single-string/table-argument call (in order), whether parentheses are present
+    pub call_parens: Vec<bool>,
+    /// per short string (in order): the quote character
+    pub quotes: Vec<u8>,
+}
+
+pub struct Canon {
+    pub toks: Vec<CTok>,
+    /// source byte offset of every canonical token
+    pub offs: Vec<usize>,
+    pub sites: Sites,
+    /// number of code tokens before canonicalisation
+    pub raw_len: usize,
+}
+
+#[derive(Clone, Copy, PartialEq, Eq, Debug)]
+enum Open {
+    Brace,
+    Paren,
+    Bracket,
+    Block,
+}
+
+fn ends_prefix_exp(t: &LTok) -> bool {
+    match t.kind {
+        LK::Name | LK::Str | LK::LongStr => true,
+        LK::Op => t.text == ")" || t.text == "]" || t.text == "}",
+        _ => false,
+    }
+}
+
+/// Canonical token sequence of `text` under `cfg` (see module doc).
+pub fn canon(text: &str, cfg: &LuaFormatConfig, free_semis: &std::collections::BTreeSet<usize>) -> Canon {
+    let toks: Vec<LTok> = lex(text).into_iter().filter(|t| t.kind != LK::Comment).collect();
+    let n = toks.len();
+    let quote_free = cfg.output.quote_style != QuoteStyle::Preserve;
+    let parens_free = cfg.output.single_arg_call_parens != SingleArgCallParens::Preserve;
+    let keep_semis = cfg.output.preserve_statement_semicolon;
+
+    // matching closers for every opener (brackets only)
+    let mut match_of = vec![usize::MAX; n];
+    {
+        let mut st: Vec<usize> = Vec::new();
+        for (i, t) in toks.iter().enumerate() {
+            if t.kind != LK::Op {
+                continue;
+            }
+            match t.text.as_str() {
+                "(" | "{" | "[" => st.push(i),
+                ")" | "}" | "]" => {
+                    if let Some(o) = st.pop() {
+                        match_of[o] = i;
+                        match_of[i] = o;
+                    }
+                }
+                _ => {}
+            }
+        }
+    }
+
+    // single-argument call parentheses: "(" STRING ")" or "(" "{" … "}" ")" after a prefix expression
+    let mut drop = vec![false; n];
+    let mut sites = Sites::default();
+    let mut call_site_at: Vec<Option<bool>> = vec![None; n]; // index of the argument's first token -> parens present
+    for i in 0..n {
+        let t = &toks[i];
+        if i == 0 || !ends_prefix_exp(&toks[i - 1]) {
+            continue;
+        }
+        // `function name (…)` parameter lists never contain a string / table, so no confusion there
+        if t.kind == LK::Op && t.text == "(" && match_of[i] != usize::MAX {
+            let close = match_of[i];
+            let inner_first = i + 1;
+            if inner_first < close {
+                let a = &toks[inner_first];
+                let single = if a.kind == LK::Str || a.kind == LK::LongStr {
+                    close == inner_first + 1
+                } else if a.kind == LK::Op && a.text == "{" && match_of[inner_first] != usize::MAX {
+                    match_of[inner_first] + 1 == close
+                } else {
+                    false
+                };
+                if single {
+                    call_site_at[inner_first] = Some(true);
+                    if parens_free {
+                        drop[i] = true;
+                        drop[close] = true;
+                    }
+                }
+            }
+        } else if t.kind == LK::Str || t.kind == LK::LongStr || (t.kind == LK::Op && t.text == "{") {
+            // argument without parentheses: in valid Lua a string / table constructor directly after the end of
+            // a prefix expression is always a call argument
+            call_site_at[i] = Some(false);
+        }
+    }
+
+    let mut out = Vec::with_capacity(n);
+    let mut offs: Vec<usize> = Vec::with_capacity(n);
+    let mut stack: Vec<Open> = Vec::new();
+    for i in 0..n {
+        let t = &toks[i];
+        while offs.len() < out.len() {
+            // tokens pushed in the previous iteration
+            offs.push(toks[i - 1].start);
+        }
+        if let Some(p) = call_site_at[i] {
+            sites.call_parens.push(p);
+        }
+        if drop[i] {
+            // dropped parens of a single-argument call still take part in bracket tracking
+            continue;
+        }
+        match t.kind {
+            LK::Keyword => {
+                match t.text.as_str() {
+                    "function" | "if" | "repeat" => stack.push(Open::Block),
+                    "do" => stack.push(Open::Block),
+                    "end" | "until" => {
+                        // pop to the innermost Block (tolerate unbalanced input)
+                        while let Some(o) = stack.pop() {
+                            if o == Open::Block {
+                                break;
+                            }
+                        }
+                    }
+                    _ => {}
+                }
+                out.push(CTok::T(LK::Keyword, t.text.clone()));
+            }
+            LK::Op => match t.text.as_str() {
+                "{" => {
+                    stack.push(Open::Brace);
+                    out.push(CTok::T(LK::Op, "{".into()));
+                }
+                "(" => {
+                    stack.push(Open::Paren);
+                    out.push(CTok::T(LK::Op, "(".into()));
+                }
+                "[" => {
+                    stack.push(Open::Bracket);
+                    out.push(CTok::T(LK::Op, "[".into()));
+                }
+                "}" | ")" | "]" => {
+                    let want = match t.text.as_str() {
+                        "}" => Open::Brace,
+                        ")" => Open::Paren,
+                        _ => Open::Bracket,
+                    };
+                    if stack.last() == Some(&want) {
+                        stack.pop();
+                    }
+                    out.push(CTok::T(LK::Op, t.text.clone()));
+                }
+                "," | ";" if stack.last() == Some(&Open::Brace) => {
+                    // table separator; trailing one is free
+                    let next_is_close = toks.get(i + 1).map(|x| x.kind == LK::Op && x.text == "}").unwrap_or(false);
+                    if next_is_close {
+                        // recorded at the `}` below via lookbehind
+                    } else {
+                        out.push(CTok::Sep);
+                    }
+                }
+                ";" => {
+                    // statement semicolon: an empty statement (per the project's own tree) is always free
+                    if free_semis.contains(&t.start) {
+                        // nothing
+                    } else if keep_semis {
+                        out.push(CTok::Semi);
+                    } else {
+                        sites.opt_semis += 1;
+                    }
+                }
+                _ => out.push(CTok::T(LK::Op, t.text.clone())),
+            },
+            LK::Str => {
+                sites.quotes.push(t.text.as_bytes()[0]);
+                if quote_free {
+                    match decode_short_string(&t.text) {
+                        Some(v) => out.push(CTok::S(v)),
+                        None => out.push(CTok::T(LK::Str, t.text.clone())),
+                    }
+                } else {
+                    out.push(CTok::T(LK::Str, t.text.clone()));
+                }
+            }
+            k => out.push(CTok::T(k, t.text.clone())),
+        }
+        // trailing separator bookkeeping: at a table's `}`
+        if t.kind == LK::Op && t.text == "}" && match_of[i] != usize::MAX {
+            let has = i > 0 && toks[i - 1].kind == LK::Op && (toks[i - 1].text == "," || toks[i - 1].text == ";") && match_of[i] + 1 != i;
+            sites.trailing.push(has);
+        }
+    }
+    while offs.len() < out.len() {
+        offs.push(toks[n - 1].start);
+    }
+    Canon { toks: out, offs, sites, raw_len: n }
+}
+
+#[derive(Debug, Clone)]
+pub struct Mismatch {
+    /// clause name, e.g. "token-seq", "semicolon-added", "comment-seq", "doc-structure"
+    pub clause: String,
+    /// structural discriminator for the signature
+    pub what: String,
+    /// human-readable detail
+    pub detail: String,
+}
+
+#[derive(Clone, Copy, Debug, PartialEq, Eq)]
+pub enum Diff {
+    Lost,
+    Added,
+    Changed,
+}
+
+/// Classify the difference of two sequences at their first differing index `k`: `Lost(d)` if the
+/// output continues like the input after skipping `d` input tokens, `Added(d)` for the converse.
+pub fn classify_diff<T>(a: &[T], b: &[T], k: usize, eq: impl Fn(&T, &T) -> bool) -> (Diff, usize) {
+    if k >= b.len() {
+        return (Diff::Lost, a.len() - k);
+    }
+    if k >= a.len() {
+        return (Diff::Added, b.len() - k);
+    }
+    let matches2 = |x: &[T], i: usize, y: &[T], j: usize| -> bool {
+        // two tokens in a row agree (or one, at the very end)
+        match (x.get(i), y.get(j)) {
+            (Some(p), Some(q)) if eq(p, q) => match (x.get(i + 1), y.get(j + 1)) {
+                (Some(p2), Some(q2)) => eq(p2, q2),
+                (None, None) => true,
+                _ => false,
+            },
+            (None, None) => true,
+            _ => false,
+        }
+    };
+    for d in 1..=12 {
+        if matches2(a, k + d, b, k) {
+            return (Diff::Lost, d);
+        }
+        if matches2(b, k + d, a, k) {
+            return (Diff::Added, d);
+        }
+    }
+    (Diff::Changed, 1)
+}
+
+fn ctx_show(v: &[CTok], i: usize) -> String {
+    let lo = i.saturating_sub(4);
+    let hi = (i + 4).min(v.len());
+    v[lo..hi].iter().map(|t| t.show()).collect::<Vec<_>>().join(" ")
+}
+
+/// Compare code tokens of `src` and `out` under `cfg`.
+pub fn compare_code(src: &str, src_root: &LuaSyntaxNode, out: &str, out_root: &LuaSyntaxNode, cfg: &LuaFormatConfig) -> Result<usize, Mismatch> {
+    let a = canon(src, cfg, &empty_stat_semis(src_root));
+    let b = canon(out, cfg, &empty_stat_semis(out_root));
+    // first difference
+    let n = a.toks.len().min(b.toks.len());
+    let mut k = 0;
+    while k < n && a.toks[k] == b.toks[k] {
+        k += 1;
+    }
+    if k < n || a.toks.len() != b.toks.len() {
+        let (dir, d) = classify_diff(&a.toks, &b.toks, k, |x, y| x == y);
+        // the construct: innermost interesting node of the *input* tree around the first differing input token
+        let at_off = a.offs.get(k).copied().unwrap_or(src.len());
+        let at = enclosing_kind(src_root, at_off);
+        let _ = d;
+        let semis = |v: &Vec<CTok>| v.iter().filter(|t| **t == CTok::Semi).count();
+        let what = if semis(&b.toks) > semis(&a.toks) {
+            // only possible with preserve_statement_semicolon: a `;` that was not in the input
+            "added=semicolon".to_string()
+        } else {
+            match dir {
+            // lost or replaced: name the input token that has no counterpart
+            Diff::Lost | Diff::Changed => format!("src={}:at={at}", a.toks.get(k).map(|t| t.class()).unwrap_or_else(|| "eof".into())),
+            Diff::Added => format!("added={}:at={at}", b.toks.get(k).map(|t| t.class()).unwrap_or_default()),
+            }
+        };
+        return Err(Mismatch {
+            clause: "token-seq".into(),
+            what,
+            detail: format!("first difference at canonical token {k}: input «{}» vs output «{}»", ctx_show(&a.toks, k), ctx_show(&b.toks, k)),
+        });
+    }
+    // directional checks
+    if b.sites.opt_semis > a.sites.opt_semis {
+        return Err(Mismatch { clause: "token-seq".into(), what: "added=semicolon".into(), detail: format!("{} optional statement semicolons in the input, {} in the output", a.sites.opt_semis, b.sites.opt_semis) });
+    }
+    // trailing table separators are free in both directions under every policy: whether the output honours
+    // `trailing_table_comma()` is a style-conformance question, not one of changed or lost code.
+    if a.sites.call_parens.len() == b.sites.call_parens.len() {
+        for (x, y) in a.sites.call_parens.iter().zip(b.sites.call_parens.iter()) {
+            if x == y {
+                continue;
+            }
+            let bad = match cfg.output.single_arg_call_parens {
+                SingleArgCallParens::Preserve => true,
+                SingleArgCallParens::Always => *x && !*y,
+                SingleArgCallParens::Omit => !*x && *y,
+            };
+            if bad {
+                return Err(Mismatch {
+                    clause: "token-seq".into(),
+                    what: format!("call-parens:{}:policy={:?}", if *y { "added" } else { "removed" }, cfg.output.single_arg_call_parens),
+                    detail: "single-argument call parentheses changed against the configured policy".into(),
+                });
+            }
+        }
+    }
+    if a.sites.quotes.len() == b.sites.quotes.len() {
+        let pref = match cfg.output.quote_style {
+            QuoteStyle::Preserve => 0u8,
+            QuoteStyle::Double => b'"',
+            QuoteStyle::Single => b'\'',
+        };
+        for (x, y) in a.sites.quotes.iter().zip(b.sites.quotes.iter()) {
+            if x != y && *y != pref {
+                return Err(Mismatch {
+                    clause: "token-seq".into(),
+                    what: format!("quote-changed-against-style:{:?}", cfg.output.quote_style),
+                    detail: format!("a string quoted with {} became quoted with {}", *x as char, *y as char),
+                });
+            }
+        }
+    }
+    Ok(a.raw_len)
+}
+
+/// Offsets of `;` tokens that form an empty statement in the project's tree.
+pub fn empty_stat_semis(root: &LuaSyntaxNode) -> std::collections::BTreeSet<usize> {
+    let mut s = std::collections::BTreeSet::new();
+    for n in root.descendants() {
+        if n.kind() == LuaKind::Syntax(LuaSyntaxKind::EmptyStat) {
+            for t in n.children_with_tokens().filter_map(|e| e.into_token()) {
+                if t.kind().to_token() == LuaTokenKind::TkSemicolon {
+                    s.insert(usize::from(t.text_range().start()));
+                }
+            }
+        }
+    }
+    s
+}
+
+/// Pre-order list of statement kinds (empty statements excluded). Dropping a `;` that is not
+/// optional (`a = b; (f)()`) merges two statements and shows up here.
+pub fn stat_kinds(root: &LuaSyntaxNode) -> Vec<LuaSyntaxKind> {
+    root.descendants()
+        .map(|n| n.kind().to_syntax())
+        .filter(|k| *k != LuaSyntaxKind::EmptyStat && format!("{k:?}").ends_with("Stat"))
+        .collect()
+}
+
+pub fn compare_stats(src_root: &LuaSyntaxNode, out_root: &LuaSyntaxNode) -> Result<usize, Mismatch> {
+    let a = stat_kinds(src_root);
+    let b = stat_kinds(out_root);
+    if a == b {
+        return Ok(a.len());
+    }
+    let n = a.len().min(b.len());
+    let mut k = 0;
+    while k < n && a[k] == b[k] {
+        k += 1;
+    }
+    let x = a.get(k).map(|k| format!("{k:?}")).unwrap_or("none".into());
+    let y = b.get(k).map(|k| format!("{k:?}")).unwrap_or("none".into());
+    let (dir, _) = classify_diff(&a, &b, k, |p, q| p == q);
+    let what = match dir {
+        Diff::Lost => format!("statement-merged-or-lost:{x}"),
+        Diff::Added => format!("statement-split-or-added:{y}"),
+        Diff::Changed => format!("statement-kind-changed:{x}"),
+    };
+    Err(Mismatch {
+        clause: "stat-structure".into(),
+        what,
+        detail: format!("same code tokens but statement {k} is {x} in the input and {y} in the output ({} vs {} statements)", a.len(), b.len()),
+    })
+}
+
+// ------------------------------------------------------------------------------------------
+// comments (emmylua's doc structure of input vs output)
+// ------------------------------------------------------------------------------------------
+
+pub fn parse(text: &str, level: LuaLanguageLevel) -> LuaSyntaxTree {
+    LuaParser::parse(text, ParserConfig::with_level(level))
+}
+
+#[derive(Clone, Debug, PartialEq, Eq)]
+pub struct DocTok {
+    pub kind: LuaTokenKind,
+    pub text: String,
+    /// kind of the closest doc-tag ancestor (or Comment)
+    pub owner: LuaSyntaxKind,
+    /// kind of the direct parent node
+    pub parent: LuaSyntaxKind,
+    /// kind of the node the comment is attached to (parent of the Comment node)
+    pub host: LuaSyntaxKind,
+    /// index of the token within its comment
+    pub idx: usize,
+    /// running number of the comment line (unit) the token belongs to
+    pub unit: usize,
+    /// the line is a doc line (`---…`): its free text is compared modulo whitespace, like the
+    /// annotation tokens (column alignment and `---|x` -> `--- | x` are layout, not content)
+    pub doc_line: bool,
+}
+
+pub struct CommentView {
+    pub toks: Vec<DocTok>,
+    /// pre-order node kinds below Comment nodes (Comment nodes themselves excluded)
+    pub skeleton: Vec<(LuaSyntaxKind, usize)>,
+    pub comments: usize,
+}
+
+fn is_prefix_kind(k: LuaTokenKind) -> bool {
+    matches!(
+        k,
+        LuaTokenKind::TkNormalStart
+            | LuaTokenKind::TkDocStart
+            | LuaTokenKind::TkDocContinue
+            | LuaTokenKind::TkDocContinueOr
+            | LuaTokenKind::TkLongCommentStart
+            | LuaTokenKind::TkDocLongStart
+            | LuaTokenKind::TKDocTriviaStart
+    )
+}
+
+fn is_tag_node(k: LuaSyntaxKind) -> bool {
+    format!("{k:?}").starts_with("DocTag")
+}
+
+/// Flatten all comments of a tree.
+pub fn comment_view(root: &LuaSyntaxNode) -> CommentView {
+    let mut toks = Vec::new();
+    let mut skeleton = Vec::new();
+    let mut comments = 0;
+    let mut unit = 0usize;
+    for node in root.descendants() {
+        if node.kind() != LuaKind::Syntax(LuaSyntaxKind::Comment) {
+            continue;
+        }
+        unit += 1;
+        if node.ancestors().skip(1).any(|a| a.kind() == LuaKind::Syntax(LuaSyntaxKind::Comment)) {
+            continue;
+        }
+        comments += 1;
+        let host = node.parent().map(|p| p.kind().to_syntax()).unwrap_or(LuaSyntaxKind::Chunk);
+        let base_depth = node.ancestors().count();
+        let mut idx = 0usize;
+        let mut doc_line = false;
+        for el in node.descendants_with_tokens() {
+            match el {
+                rowan::NodeOrToken::Node(n) => {
+                    if n == node {
+                        continue;
+                    }
+                    // structure = the annotation trees: nodes at or below a doc tag, free text excluded
+                    let k = n.kind().to_syntax();
+                    let under_tag = n.ancestors().take_while(|a| *a != node).any(|a| is_tag_node(a.kind().to_syntax()));
+                    if k != LuaSyntaxKind::DocDescription && under_tag {
+                        let d = n.ancestors().count() - base_depth;
+                        skeleton.push((k, d));
+                    }
+                }
+                rowan::NodeOrToken::Token(t) => {
+                    let k = t.kind().to_token();
+                    if k == LuaTokenKind::TkEndOfLine {
+                        unit += 1;
+                        continue;
+                    }
+                    if k == LuaTokenKind::TkWhitespace {
+                        continue;
+                    }
+                    let parent = t.parent().map(|p| p.kind().to_syntax()).unwrap_or(LuaSyntaxKind::None);
+                    let owner = t
+                        .parent_ancestors()
+                        .map(|a| a.kind().to_syntax())
+                        .find(|k| is_tag_node(*k) || *k == LuaSyntaxKind::Comment)
+                        .unwrap_or(LuaSyntaxKind::Comment);
+                    if is_prefix_kind(k) {
+                        doc_line = matches!(k, LuaTokenKind::TkDocStart | LuaTokenKind::TkDocContinue | LuaTokenKind::TkDocContinueOr)
+                            || (k == LuaTokenKind::TkNormalStart && t.text().bytes().take_while(|b| *b == b'-').count() == 3);
+                    }
+                    let text = if is_prefix_kind(k) {
+                        t.text().chars().filter(|c| !c.is_whitespace()).collect::<String>()
+                    } else {
+                        t.text().trim().to_string()
+                    };
+                    if text.is_empty() {
+                        continue;
+                    }
+                    toks.push(DocTok { kind: k, text, owner, parent, host, idx, unit, doc_line });
+                    idx += 1;
+                }
+            }
+        }
+    }
+    CommentView { toks, skeleton, comments }
+}
+
+fn kind_name(k: LuaSyntaxKind) -> String {
+    format!("{k:?}")
+}
+
+fn doc_tok_eq(x: &DocTok, y: &DocTok) -> bool {
+    if x.kind != y.kind {
+        return false;
+    }
+    if x.text == y.text {
+        return true;
+    }
+    if x.doc_line && y.doc_line && matches!(x.kind, LuaTokenKind::TkDocDetail | LuaTokenKind::TkDocTrivia) {
+        let strip = |s: &str| s.chars().filter(|c| !c.is_whitespace()).collect::<String>();
+        if strip(&x.text) == strip(&y.text) {
+            return true;
+        }
+    }
+    // string literals inside annotations: compared by value (a changed quote style is not a changed meaning)
+    if x.kind == LuaTokenKind::TkString {
+        if let (Some(a), Some(b)) = (decode_short_string(&x.text), decode_short_string(&y.text)) {
+            return a == b;
+        }
+    }
+    false
+}
+
+fn first_char_class(s: &str) -> &'static str {
+    match s.chars().next() {
+        None => "empty",
+        Some('|') => "pipe",
+        Some('#') => "hash",
+        Some('@') => "at",
+        Some('`') => "backtick",
+        Some('-') => "dash",
+        Some(c) if c.is_alphanumeric() => "word",
+        Some(c) if c.is_ascii_punctuation() => "punct",
+        Some(_) => "other",
+    }
+}
+
+/// Compare the comments of the input tree with those of the output tree.
+pub fn compare_comments(src_root: &LuaSyntaxNode, out_root: &LuaSyntaxNode, check_skeleton: bool, malformed: bool) -> Result<usize, Mismatch> {
+    let a = comment_view(src_root);
+    let b = comment_view(out_root);
+    let n = a.toks.len().min(b.toks.len());
+    let mut k = 0;
+    while k < n && doc_tok_eq(&a.toks[k], &b.toks[k]) {
+        k += 1;
+    }
+    if k < n || a.toks.len() != b.toks.len() {
+        // Not the same sequence. Comments may legitimately move relative to each other (a comment after a
+        // comma joins the one at the end of the line, …): compare the multisets of comment lines.
+        let units = |v: &Vec<DocTok>| -> Vec<Vec<DocTok>> {
+            let mut out: Vec<Vec<DocTok>> = Vec::new();
+            let mut last = usize::MAX;
+            for t in v {
+                if t.unit != last {
+                    out.push(Vec::new());
+                    last = t.unit;
+                }
+                out.last_mut().unwrap().push(t.clone());
+            }
+            out
+        };
+        let key = |u: &Vec<DocTok>| -> String {
+            let mut s = String::new();
+            for t in u {
+                let txt = if t.kind == LuaTokenKind::TkString {
+                    decode_short_string(&t.text).map(|v| String::from_utf8_lossy(&v).to_string()).unwrap_or(t.text.clone())
+                } else if t.doc_line && matches!(t.kind, LuaTokenKind::TkDocDetail | LuaTokenKind::TkDocTrivia) {
+                    t.text.chars().filter(|c| !c.is_whitespace()).collect()
+                } else {
+                    t.text.clone()
+                };
+                s.push_str(&format!("{:?}\u{1}{}\u{2}", t.kind, txt));
+            }
+            s
+        };
+        let ua = units(&a.toks);
+        let ub = units(&b.toks);
+        let mut count: std::collections::BTreeMap<String, i64> = std::collections::BTreeMap::new();
+        for u in &ua {
+            *count.entry(key(u)).or_insert(0) += 1;
+        }
+        let src_keys: std::collections::BTreeSet<String> = count.keys().cloned().collect();
+        for u in &ub {
+            *count.entry(key(u)).or_insert(0) -= 1;
+        }
+        let lost: Vec<&Vec<DocTok>> = {
+            let mut c = count.clone();
+            ua.iter().filter(|u| {
+                let e = c.get_mut(&key(u)).unwrap();
+                if *e > 0 { *e -= 1; true } else { false }
+            }).collect()
+        };
+        let extra: Vec<&Vec<DocTok>> = {
+            let mut c = count.clone();
+            ub.iter().filter(|u| {
+                let e = c.get_mut(&key(u)).unwrap();
+                if *e < 0 { *e += 1; true } else { false }
+            }).collect()
+        };
+        if lost.is_empty() && extra.is_empty() {
+            // same comment lines, different order: admissible
+            return Ok(a.toks.len());
+        }
+        let show_u = |u: &Vec<DocTok>| -> String { u.iter().map(|t| t.text.clone()).collect::<Vec<_>>().join(" ") };
+        // identical comment lines cannot be told apart by the multiset: prefer the lost line that contains the
+        // first difference of the plain sequence comparison
+        let lost_first: Option<&Vec<DocTok>> = {
+            let ku = a.toks.get(k).map(|t| t.unit);
+            let at_k = ua.iter().find(|u| Some(u[0].unit) == ku);
+            match at_k {
+                Some(u) if lost.iter().any(|l| key(l) == key(u)) => Some(u),
+                _ => lost.first().copied(),
+            }
+        };
+        if let Some(l) = lost_first {
+            // partner: the extra unit with the longest common token prefix
+            let mut best: Option<(&Vec<DocTok>, usize)> = None;
+            for e in &extra {
+                let mut c = 0;
+                while c < l.len().min(e.len()) && doc_tok_eq(&l[c], &e[c]) {
+                    c += 1;
+                }
+                if c >= 1 && best.map(|b| c > b.1).unwrap_or(true) {
+                    best = Some((e, c));
+                }
+            }
+            if let Some((e, c)) = best {
+                let (dir, _d) = classify_diff(l, e, c, doc_tok_eq);
+                let tag = l.iter().find(|t| is_tag_node(t.owner)).map(|t| kind_name(t.owner)).unwrap_or_else(|| "Comment".to_string());
+                // recognisable shapes first (one root cause each, whatever the neighbouring tokens are)
+                let twice = e.len() == 2 * l.len() && (0..l.len()).all(|i| doc_tok_eq(&l[i], &e[i]) && doc_tok_eq(&l[i], &e[i + l.len()]));
+                let semi_appended = l.len() == e.len() && c + 1 == l.len() && e[c].text == format!("{};", l[c].text) || (e.len() == l.len() + 1 && c == l.len() && e[c].text == ";");
+                let key_dup = tag == "DocTagField" && e.get(c).map(|y| matches!(y.kind, LuaTokenKind::TkLeftBracket | LuaTokenKind::TkTagVisibility | LuaTokenKind::TkDocVisibility) && e[..c].iter().any(|p| p.kind == y.kind)).unwrap_or(false);
+                let what = if twice {
+                    format!("line-duplicated-inline:tag={tag}")
+                } else if semi_appended {
+                    "semicolon-appended-to-comment".to_string()
+                } else if key_dup {
+                    "field-key-duplicated".to_string()
+                } else {
+                    match dir {
+                        Diff::Added => {
+                            let y = &e[c];
+                            let anchor = l.get(c).unwrap_or(&l[l.len() - 1]);
+                            format!("added={:?}:tag={}:in={}", y.kind, tag, kind_name(anchor.parent))
+                        }
+                        Diff::Lost | Diff::Changed => {
+                            let x = &l[c];
+                            let same_kind_text = e.get(c).map(|y| y.kind == x.kind).unwrap_or(false) && dir == Diff::Changed;
+                            if same_kind_text {
+                                let y = &e[c];
+                                let strip = |s: &str| s.chars().filter(|c| !c.is_whitespace()).collect::<String>();
+                                let how = if strip(&x.text) == strip(&y.text) { "inner-whitespace" } else { "content" };
+                                format!("text-changed={:?}:{}:first={}:tag={}:in={}", x.kind, how, first_char_class(&x.text), tag, kind_name(x.parent))
+                            } else {
+                                format!("src={:?}:tag={}:in={}", x.kind, tag, kind_name(x.parent))
+                            }
+                        }
+                    }
+                };
+                let what = if malformed { format!("malformed-annotation:{}", what.split(':').next().unwrap_or("changed").split('=').next().unwrap_or("changed")) } else { what };
+                return Err(Mismatch { clause: "comment-tokens".into(), what, detail: format!("comment line changed: input «{}» vs output «{}»", show_u(l), show_u(e)) });
+            }
+            let x = &l[0];
+            return Err(Mismatch {
+                clause: "comment-lost".into(),
+                what: format!("host={}", kind_name(x.host)),
+                detail: format!("comment line «{}» of the input (attached to a {}) does not occur in the output", show_u(l), kind_name(x.host)),
+            });
+        }
+        let e = extra[0];
+        let dup = src_keys.contains(&key(e));
+        return Err(Mismatch {
+            clause: if dup { "comment-duplicated".into() } else { "comment-added".into() },
+            what: format!("host={}", kind_name(e[0].host)),
+            detail: format!("comment line «{}» occurs more often in the output than in the input", show_u(e)),
+        });
+    }
+    // same tokens: structure
+    if !check_skeleton {
+        return Ok(a.toks.len());
+    }
+    let sa: Vec<LuaSyntaxKind> = a.skeleton.iter().map(|x| x.0).collect();
+    let sb: Vec<LuaSyntaxKind> = b.skeleton.iter().map(|x| x.0).collect();
+    if sa != sb {
+        let n = sa.len().min(sb.len());
+        let mut k = 0;
+        while k < n && sa[k] == sb[k] {
+            k += 1;
+        }
+        let x = sa.get(k).map(|k| kind_name(*k)).unwrap_or("none".into());
+        let y = sb.get(k).map(|k| kind_name(*k)).unwrap_or("none".into());
+        // enclosing tag of the first differing node on the input side
+        let mut tag = "Comment".to_string();
+        for j in (0..k.min(sa.len())).rev() {
+            if is_tag_node(sa[j]) {
+                tag = kind_name(sa[j]);
+                break;
+            }
+        }
+        return Err(Mismatch {
+            clause: "doc-structure".into(),
+            what: format!("after={tag}:{x}->{y}"),
+            detail: format!("comment tokens are equal but the doc trees differ at node {k}: input {x}, output {y}"),
+        });
+    }
+    Ok(a.toks.len())
+}
+
+/// Smallest interesting syntax kind enclosing byte `offset` (for C06 signatures).
+pub fn enclosing_kind(root: &LuaSyntaxNode, offset: usize) -> String {
+    let off = rowan::TextSize::new(offset.min(usize::from(root.text_range().end())) as u32);
+    let tok = match root.token_at_offset(off) {
+        rowan::TokenAtOffset::None => return "eof".into(),
+        rowan::TokenAtOffset::Single(t) => t,
+        rowan::TokenAtOffset::Between(_, r) => r,
+    };
+    let mut tag: Option<String> = None;
+    let mut in_comment = false;
+    for a in tok.parent_ancestors() {
+        let k = a.kind().to_syntax();
+        if is_tag_node(k) && tag.is_none() {
+            tag = Some(kind_name(k));
+        }
+        if k == LuaSyntaxKind::Comment {
+            in_comment = true;
+            break;
+        }
+    }
+    if in_comment {
+        return format!("Comment/{}", tag.unwrap_or_else(|| "text".into()));
+    }
+    // code: innermost node kind that is not a trivial leaf wrapper
+    for a in tok.parent_ancestors() {
+        let k = a.kind().to_syntax();
+        if matches!(k, LuaSyntaxKind::NameExpr | LuaSyntaxKind::LiteralExpr | LuaSyntaxKind::LocalName | LuaSyntaxKind::ParamName | LuaSyntaxKind::Block | LuaSyntaxKind::Chunk) {
+            continue;
+        }
+        return kind_name(k);
+    }
+    "Chunk".into()
+}
+
+// ------------------------------------------------------------------------------------------
+// formatter configurations
+// ------------------------------------------------------------------------------------------
+
+use crate::corpus::Corpus;
+use crate::gens::{soup, valid};
+use crate::rng::Rng;
+use emmylua_formatter::config::SimpleLambdaSingleLine;
+use emmylua_formatter::{EndOfLine, ExpandStrategy, IndentKind, LuaSyntaxLevel, TrailingTableSeparator};
+use serde_json::{Value, json};
+
+pub const LEVEL_NAMES: [(&str, LuaLanguageLevel, LuaSyntaxLevel); 8] = [
+    ("Lua51", LuaLanguageLevel::Lua51, LuaSyntaxLevel::Lua51),
+    ("Lua52", LuaLanguageLevel::Lua52, LuaSyntaxLevel::Lua52),
+    ("Lua53", LuaLanguageLevel::Lua53, LuaSyntaxLevel::Lua53),
+    ("Lua54", LuaLanguageLevel::Lua54, LuaSyntaxLevel::Lua54),
+    ("Lua55", LuaLanguageLevel::Lua55, LuaSyntaxLevel::Lua55),
+    ("LuaJIT", LuaLanguageLevel::LuaJIT2, LuaSyntaxLevel::LuaJIT),
+    ("LuaJITExt", LuaLanguageLevel::LuaJIT, LuaSyntaxLevel::LuaJITExt),
+    ("LuaJIT3", LuaLanguageLevel::LuaJIT3, LuaSyntaxLevel::LuaJIT3),
+];
+
+pub fn level_by_name(name: &str) -> (LuaLanguageLevel, LuaSyntaxLevel) {
+    LEVEL_NAMES.iter().find(|l| l.0 == name).map(|l| (l.1, l.2)).unwrap_or((LuaLanguageLevel::Lua55, LuaSyntaxLevel::Lua55))
+}
+
+fn expand(rng: &mut Rng) -> ExpandStrategy {
+    match rng.below(3) {
+        0 => ExpandStrategy::Never,
+        1 => ExpandStrategy::Always,
+        _ => ExpandStrategy::Auto,
+    }
+}
+
+/// A formatter configuration over every `LuaFormatConfig` field. About a third of the cases use
+/// the defaults, a third the defaults with a few switches changed, a third everything random.
+pub fn gen_config(rng: &mut Rng, level_name: &str) -> LuaFormatConfig {
+    let mut c = LuaFormatConfig::default();
+    c.syntax.level = level_by_name(level_name).1;
+    let mode = rng.below(3);
+    if mode == 0 {
+        return c;
+    }
+    // mode 1: each group is touched with probability 1/5; mode 2: always
+    let touch = |rng: &mut Rng| mode == 2 || rng.chance(1, 5);
+    if touch(rng) {
+        c.indent.kind = if rng.bool() { IndentKind::Tab } else { IndentKind::Space };
+        c.indent.width = rng.range(1, 8);
+    }
+    if touch(rng) {
+        c.layout.max_line_width = match rng.below(10) {
+            0 => rng.range(1, 19),
+            1..=5 => rng.range(20, 80),
+            6..=8 => rng.range(81, 200),
+            _ => 1000,
+        };
+    }
+    if touch(rng) {
+        c.layout.max_blank_lines = rng.below(4);
+    }
+    if touch(rng) {
+        c.layout.table_expand = expand(rng);
+        c.layout.call_args_expand = expand(rng);
+        c.layout.func_params_expand = expand(rng);
+    }
+    if touch(rng) {
+        c.layout.prefer_call_args_layout_from_source = rng.bool();
+        c.layout.prefer_table_layout_from_source = rng.bool();
+        c.layout.prefer_chain_break_on_statement_tail = rng.bool();
+        c.layout.prefer_binary_chain_operand_per_line = rng.bool();
+    }
+    if touch(rng) {
+        c.output.insert_final_newline = rng.bool();
+        c.output.end_of_line = if rng.chance(1, 3) { EndOfLine::CRLF } else { EndOfLine::LF };
+    }
+    if touch(rng) {
+        c.output.preserve_statement_semicolon = rng.bool();
+    }
+    if touch(rng) {
+        c.output.trailing_comma = match rng.below(3) {
+            0 => TrailingComma::Never,
+            1 => TrailingComma::Multiline,
+            _ => TrailingComma::Always,
+        };
+        c.output.trailing_table_separator = match rng.below(4) {
+            0 => TrailingTableSeparator::Inherit,
+            1 => TrailingTableSeparator::Never,
+            2 => TrailingTableSeparator::Multiline,
+            _ => TrailingTableSeparator::Always,
+        };
+    }
+    if touch(rng) {
+        c.output.quote_style = match rng.below(3) {
+            0 => QuoteStyle::Preserve,
+            1 => QuoteStyle::Double,
+            _ => QuoteStyle::Single,
+        };
+    }
+    if touch(rng) {
+        c.output.single_arg_call_parens = match rng.below(3) {
+            0 => SingleArgCallParens::Preserve,
+            1 => SingleArgCallParens::Always,
+            _ => SingleArgCallParens::Omit,
+        };
+    }
+    if touch(rng) {
+        c.output.simple_lambda_single_line = match rng.below(3) {
+            0 => SimpleLambdaSingleLine::Preserve,
+            1 => SimpleLambdaSingleLine::Always,
+            _ => SimpleLambdaSingleLine::Never,
+        };
+    }
+    if touch(rng) {
+        c.spacing.space_before_call_paren = rng.bool();
+        c.spacing.space_before_func_paren = rng.bool();
+        c.spacing.space_before_lambda_func_paren = rng.bool();
+        c.spacing.space_inside_braces = rng.bool();
+        c.spacing.space_inside_parens = rng.bool();
+        c.spacing.space_inside_brackets = rng.bool();
+    }
+    if touch(rng) {
+        c.spacing.space_around_math_operator = rng.bool();
+        c.spacing.space_around_concat_operator = rng.bool();
+        c.spacing.space_around_assign_operator = rng.bool();
+    }
+    if touch(rng) {
+        c.comments.align_line_comments = rng.bool();
+        c.comments.align_in_statements = rng.bool();
+        c.comments.align_in_table_fields = rng.bool();
+        c.comments.align_in_call_args = rng.bool();
+        c.comments.align_in_params = rng.bool();
+        c.comments.align_across_standalone_comments = rng.bool();
+        c.comments.align_same_kind_only = rng.bool();
+    }
+    if touch(rng) {
+        c.comments.space_after_comment_dash = rng.bool();
+        c.comments.line_comment_min_spaces_before = rng.below(5);
+        c.comments.line_comment_min_column = if rng.bool() { 0 } else { rng.range(10, 70) };
+    }
+    if touch(rng) {
+        c.emmy_doc.align_tag_columns = rng.bool();
+        c.emmy_doc.align_declaration_tags = rng.bool();
+        c.emmy_doc.align_reference_tags = rng.bool();
+        c.emmy_doc.align_multiline_alias_descriptions = rng.bool();
+    }
+    if touch(rng) {
+        c.emmy_doc.space_between_tag_columns = rng.bool();
+        c.emmy_doc.space_after_description_dash = rng.bool();
+        c.emmy_doc.compact_type_or = rng.bool();
+    }
+    if touch(rng) {
+        c.align.continuous_assign_statement = rng.bool();
+        c.align.table_field = rng.bool();
+    }
+    c
+}
+
+pub fn config_to_json(c: &LuaFormatConfig) -> Value {
+    serde_json::to_value(c).unwrap_or(Value::Null)
+}
+
+pub fn config_from_json(v: &Value) -> LuaFormatConfig {
+    serde_json::from_value(v.clone()).unwrap_or_default()
+}
+
+/// Reset as many top-level sections of `cfg` to their defaults as possible while `fails` stays true.
+pub fn shrink_config(cfg: &LuaFormatConfig, mut fails: impl FnMut(&LuaFormatConfig) -> bool) -> LuaFormatConfig {
+    let mut def = LuaFormatConfig::default();
+    def.syntax.level = cfg.syntax.level;
+    if fails(&def) {
+        return def;
+    }
+    let mut cur = cfg.clone();
+    let d = LuaFormatConfig::default();
+    macro_rules! try_reset {
+        ($field:ident) => {{
+            let mut cand = cur.clone();
+            cand.$field = d.$field.clone();
+            if fails(&cand) {
+                cur = cand;
+            }
+        }};
+    }
+    try_reset!(indent);
+    try_reset!(layout);
+    try_reset!(output);
+    try_reset!(spacing);
+    try_reset!(comments);
+    try_reset!(emmy_doc);
+    try_reset!(align);
+    cur
+}
+
+/// Short description of the non-default top-level sections of a config (for signatures / notes).
+pub fn config_delta(cfg: &LuaFormatConfig) -> Vec<String> {
+    let a = config_to_json(cfg);
+    let b = config_to_json(&LuaFormatConfig::default());
+    let mut out = Vec::new();
+    if let (Some(a), Some(b)) = (a.as_object(), b.as_object()) {
+        for (sec, va) in a {
+            if sec == "syntax" {
+                continue;
+            }
+            if let (Some(oa), Some(ob)) = (va.as_object(), b.get(sec).and_then(|x| x.as_object())) {
+                for (k, v) in oa {
+                    if ob.get(k) != Some(v) {
+                        out.push(format!("{sec}.{k}={v}"));
+                    }
+                }
+            }
+        }
+    }
+    out
+}
+
+// ------------------------------------------------------------------------------------------
+// shared case generator for C05 / C06 / C07
+// ------------------------------------------------------------------------------------------
+
+pub struct FmtCase {
+    pub family: &'static str,
+    pub text: String,
+    pub level_name: &'static str,
+    pub cfg: LuaFormatConfig,
+}
+
+const VER_LEVEL_NAMES: [&str; 5] = ["Lua51", "Lua52", "Lua53", "Lua54", "Lua55"];
+
+/// Hand-written seeds that exercise formatter corners named in the design (width limits, code
+/// fences and aligned columns in doc comments, trailing comments after table fields, …).
+pub const SEEDS: &[&str] = &[
+    "local function foo(a, b, ...c)\n    return a, b, c\nend\n",
+    "---@param chunk (fun(...): string) | string\n---@param name string\nfunction load(chunk, name) end\n",
+    "a = b; (f)()\n",
+    "local t = {\n    a = 1, -- first\n    bb = 2, -- second\n    ccc = 3, -- third\n}\n",
+    "--- Example:\n--- ```lua\n--- local x = {\n---     a = 1,\n---   b = 2,\n--- }\n--- ```\n---@param a integer\n---@param bb string\nlocal function f(a, bb) end\n",
+    "local s = [==[\n  keep ]] this\n]==]\nlocal u = [[\n\tindented]]\n",
+    "if not (a and b) or not c then return -(-x) end\n",
+    "local x = a .. 1 .. 2.0 .. \"s\" .. 3.\n",
+    "f(function() return 1 end, { 1, 2, 3 }, \"string\", [[long]])\n",
+    "local v = cond and function() return 1 end or function() return 2 end\n",
+    "---@class A\n---@field x integer # the x\n---@field private yy? string # the y\n---@field [string] any\nlocal A = {}\n",
+    "---@alias Mode\n---| 'r' # read\n---| 'w' # write\n---|+ 'rw'\n",
+    "return {\n  -- leading comment\n  1, 2; 3,\n  -- trailing comment\n}\n",
+    "local a <const>, b <close> = 1, nil\n",
+    "goto done\ndo local x = 1 end\n::done::\n",
+    "x = 1 -- c1\nyy = 2 -- c2\nzzz = 3 -- c3\n",
+    "local function f(--[[ a ]] a, --[[ b ]] b) --[[ after ]] end\n",
+    "call(a, -- first arg\n     b) -- done\n",
+    "local str = 'it\\'s' .. \"say \\\"hi\\\"\" .. '\"' .. \"'\"\n",
+    "t = { [1] = 'a'; [\"k\"] = 'b', c = { d = { e = {} } } }\n",
+    "for i = 1, 10 do if i % 2 == 0 then goto continue end print(i) ::continue:: end\n",
+    "function M.a.b.c:d(...) local a, b = ... return select('#', ...) end\n",
+    "#!/usr/bin/lua\nprint('x')\n",
+    "local veryLongVariableName = someFunction(argumentNumberOne, argumentNumberTwo, argumentNumberThree) + anotherFunction(x)\n",
+    "--[[ block\n   comment ]] local a = 1 --[==[ tail ]==]\n",
+    "---@type table<string, fun(a: integer, b?: string): boolean, string>\nlocal handlers = {}\n",
+    "---@generic T: table, K\n---@param t T\n---@param k K\n---@return T, K\nfunction g(t, k) return t, k end\n",
+    "---@overload fun(a: string): integer\n---@overload fun(a: integer, b: integer): string\nfunction o(a, b) end\n",
+    "---@diagnostic disable-next-line: undefined-global\nfoo()\n---@cast x +string, -nil\n",
+    "local x = f {\n  a = 1,\n} (2) 'str' [[long]]\n",
+    "local y = - - 1 + not not a .. #t\n",
+    "local z = 2 ^ - 3 ^ 2 // 1 ~ 5 >> 1 & 3 | 4 << 2\n",
+    "return\n",
+    "",
+    "\n\n\n",
+    "-- only a comment",
+    "local a = 1\r\nlocal b = 2\r\n-- c\r\n",
+];
+
+pub fn gen_case(rng: &mut Rng, corpus: &Corpus, big: bool) -> FmtCase {
+    let r = rng.below(100);
+    let (family, text, level_name): (&'static str, String, &'static str) = if r < 34 {
+        let ver = valid::Ver::from_index(rng.below(5));
+        let opts = valid::GenOpts { size: if big { rng.range(20, 80) } else { rng.range(1, 14) }, comments: !rng.chance(1, 4), docs: rng.chance(1, 3) };
+        let prog = valid::gen_program(rng, ver, &opts);
+        let layout = match rng.below(5) {
+            0 | 1 => valid::Layout::Pretty,
+            2 => valid::Layout::Compact,
+            _ => valid::Layout::Wild,
+        };
+        let p = prog.print(rng, layout);
+        ("g-valid", p.text, VER_LEVEL_NAMES[ver.index()])
+    } else if r < 52 {
+        ("corpus", corpus.snippets[rng.below(corpus.snippets.len().max(1)) % corpus.snippets.len().max(1)].clone(), "Lua55")
+    } else if r < 56 {
+        // std library files verbatim (only the smaller ones in the quick tier)
+        let mut idx = rng.below(corpus.std_files.len().max(1));
+        if !big {
+            for _ in 0..8 {
+                if corpus.std_files.get(idx).map(|f| f.1.len() <= 24_000).unwrap_or(true) {
+                    break;
+                }
+                idx = rng.below(corpus.std_files.len());
+            }
+        }
+        match corpus.std_files.get(idx) {
+            Some(f) => ("std-file", f.1.clone(), "Lua55"),
+            None => ("seed", rng.pick(SEEDS).to_string(), "Lua55"),
+        }
+    } else if r < 68 {
+        let base = corpus.pick(rng);
+        let base = if base.len() > 6000 { &base[..{
+            let mut c = 6000;
+            while !base.is_char_boundary(c) {
+                c -= 1;
+            }
+            c
+        }] } else { base };
+        ("corpus-mutant", soup::mutate(rng, base), LEVEL_NAMES[rng.below(8)].0)
+    } else if r < 82 {
+        // doc-heavy: blocks of generated annotations in front of simple statements
+        let mut s = String::new();
+        let n = rng.range(1, 4);
+        for _ in 0..n {
+            for l in valid::gen_doc_block(rng) {
+                s.push_str(&l);
+                s.push('\n');
+            }
+            s.push_str(rng.pick(&["local M = {}\n", "function M.f(a, b, ...) end\n", "local function g(a, b) return a end\n", "M.x = 1\n", "\n", "local v\n", "return M\n"]));
+        }
+        ("doc-heavy", s, "Lua55")
+    } else if r < 92 {
+        // seed, possibly repeated / concatenated to create neighbours for alignment
+        let mut s = rng.pick(SEEDS).to_string();
+        if rng.chance(1, 3) {
+            s.push_str(rng.pick(SEEDS));
+        }
+        ("seed", s, LEVEL_NAMES[if rng.chance(1, 4) { rng.below(8) } else { 4 }].0)
+    } else {
+        // near-width lines: a call / table / binary chain whose flat width is within ±3 of the limit
+        ("near-width", String::new(), "Lua55")
+    };
+    let mut cfg = gen_config(rng, level_name);
+    let text = if family == "near-width" { near_width_text(rng, &mut cfg) } else { text };
+    FmtCase { family, text, level_name, cfg }
+}
+
+fn near_width_text(rng: &mut Rng, cfg: &mut LuaFormatConfig) -> String {
+    let w = rng.range(30, 100);
+    cfg.layout.max_line_width = w;
+    let target = (w as i64 + rng.range(0, 6) as i64 - 3).max(12) as usize;
+    let kind = rng.below(5);
+    let mut parts: Vec<String> = Vec::new();
+    let (head, sep, tail): (&str, &str, &str) = match kind {
+        0 => ("local result = compute(", ", ", ")"),
+        1 => ("local t = { ", ", ", " }"),
+        2 => ("if ", " and ", " then return end"),
+        3 => ("return ", " .. ", ""),
+        _ => ("obj:method(", ", ", "):next(1):again(\"x\")"),
+    };
+    let mut len = head.len() + tail.len();
+    let words = ["alpha", "beta1", "gamma_delta", "x", "'str'", "123", "f(y)", "t.k", "not z", "#list"];
+    while len < target {
+        let wd = words[rng.below(words.len())];
+        let wd = if kind == 1 && rng.chance(1, 3) { format!("k{} = {}", parts.len(), wd) } else { wd.to_string() };
+        let add = wd.len() + if parts.is_empty() { 0 } else { sep.len() };
+        if len + add > target && !parts.is_empty() {
+            // pad the last word to hit the target exactly
+            let pad = target - len;
+            if pad > sep.len() {
+                parts.push("a".repeat(pad - sep.len()));
+            }
+            break;
+        }
+        len += add;
+        parts.push(wd);
+    }
+    let mut s = format!("{head}{}{tail}", parts.join(sep));
+    if rng.chance(1, 3) {
+        s.push_str(" -- trailing comment");
+    }
+    s.push('\n');
+    if rng.bool() {
+        s = format!("local function wrap()\n    {s}end\n");
+    }
+    s
+}
+
+// ------------------------------------------------------------------------------------------
+// text shrinking
+// ------------------------------------------------------------------------------------------
+
+/// Shrink `text` while `fails(text)` stays true: by lines, then by whitespace-delimited pieces,
+/// then (for short texts) by characters.
+pub fn shrink_text(text: &str, mut fails0: impl FnMut(&str) -> bool, budget: usize) -> String {
+    // CPU-time cap (never a verdict: it only bounds how small the witness gets)
+    let t0 = crate::util::thread_cpu();
+    let cap = shrink_cpu_cap();
+    let mut fails = move |t: &str| -> bool {
+        if crate::util::thread_cpu() - t0 > cap {
+            return false;
+        }
+        fails0(t)
+    };
+    let lines: Vec<String> = text.split_inclusive('\n').map(|s| s.to_string()).collect();
+    let lines = crate::util::ddmin(lines, |p| fails(&p.concat()), budget);
+    let t: String = lines.concat();
+    let pieces = soup::split_keep_ws(&t);
+    let pieces = if pieces.len() <= 4000 { crate::util::ddmin(pieces, |p| fails(&p.concat()), budget) } else { pieces };
+    let t: String = pieces.concat();
+    let chars: Vec<String> = t.chars().map(|c| c.to_string()).collect();
+    if chars.len() <= 400 {
+        let chars = crate::util::ddmin(chars, |p| fails(&p.concat()), budget);
+        chars.concat()
+    } else {
+        t
+    }
+}
+
+/// CPU seconds one shrink may use (VERIF_SHRINK_CPU overrides; default 2.5 s).
+pub fn shrink_cpu_cap() -> f64 {
+    std::env::var("VERIF_SHRINK_CPU").ok().and_then(|v| v.parse().ok()).unwrap_or(2.5)
+}
+
+pub fn _unused(_: Value) -> Value {
+    json!(null)
+}
+
+// ------------------------------------------------------------------------------------------
+// the C05 oracle on a pair (input, output) — also used by C07 on (document, spliced document)
+// ------------------------------------------------------------------------------------------
+
+/// Number of parse errors of any kind (syntax and doc) — shrinking must not introduce new ones, so
+/// that witnesses stay well-formed programs with well-formed annotations.
+pub fn error_count(text: &str, level: LuaLanguageLevel) -> usize {
+    parse(text, level).get_errors().len()
+}
+
+pub fn sanitize_msg(m: &str) -> String {
+    let mut out = String::new();
+    let mut in_quote = false;
+    for c in m.chars() {
+        if c == '\'' || c == '`' || c == '"' {
+            in_quote = !in_quote;
+            out.push('\'');
+            continue;
+        }
+        if in_quote {
+            continue;
+        }
+        out.push(if c.is_ascii_digit() { '#' } else { c });
+    }
+    while out.contains("##") {
+        out = out.replace("##", "#");
+    }
+    out.truncate(60);
+    out.replace(' ', "_")
+}
+
+/// Number of statement-level `;` that are directly followed by `(` — dropping one of those glues two
+/// statements together (`a = b; (f)()`), which is one root cause whatever the parser then makes of it.
+pub fn semis_before_paren(text: &str) -> usize {
+    let toks: Vec<LTok> = lex(text).into_iter().filter(|t| t.kind != LK::Comment).collect();
+    (1..toks.len()).filter(|&i| toks[i].kind == LK::Op && toks[i].text == "(" && toks[i - 1].kind == LK::Op && toks[i - 1].text == ";").count()
+}
+
+pub struct PairOk {
+    pub code_tokens: usize,
+    pub comment_tokens: usize,
+    pub stats: usize,
+}
+
+/// Clauses 2–4 of C05 for an error-free `src` and the text `out` produced from it.
+pub fn judge_pair(src: &str, src_tree: &LuaSyntaxTree, out: &str, level: LuaLanguageLevel, cfg: &LuaFormatConfig) -> Result<PairOk, Mismatch> {
+    let out_tree = parse(out, level);
+    if out_tree.has_syntax_errors() {
+        // say *what* broke, if the own lexer can tell: a token-level difference is the better discriminator
+        let (sroot, oroot) = (src_tree.get_red_root(), out_tree.get_red_root());
+        compare_code(src, &sroot, out, &oroot, cfg)?;
+        let e = out_tree.get_errors().iter().find(|e| e.kind == emmylua_parser::LuaParseErrorKind::SyntaxError);
+        let (msg, at) = match e {
+            Some(e) => (e.message.clone(), usize::from(e.range.start())),
+            None => (String::new(), 0),
+        };
+        let lo = at.saturating_sub(30).min(out.len());
+        let mut lo2 = lo;
+        while !out.is_char_boundary(lo2) {
+            lo2 += 1;
+        }
+        let mut hi = (at + 30).min(out.len());
+        while !out.is_char_boundary(hi) {
+            hi -= 1;
+        }
+        let kind = enclosing_kind(&oroot, at);
+        let detail = format!("same code tokens, but the output has a syntax error: {msg} near {:?}", &out[lo2..hi.max(lo2)]);
+        if semis_before_paren(src) > semis_before_paren(out) {
+            return Err(Mismatch { clause: "stat-structure".into(), what: "semicolon-before-paren-dropped".into(), detail });
+        }
+        return Err(Mismatch { clause: "output-parses".into(), what: format!("at={kind}:{}", sanitize_msg(&msg)), detail });
+    }
+    let sroot = src_tree.get_red_root();
+    let oroot = out_tree.get_red_root();
+    let code_tokens = compare_code(src, &sroot, out, &oroot, cfg)?;
+    let stats = compare_stats(&sroot, &oroot).map_err(|m| if semis_before_paren(src) > semis_before_paren(out) { Mismatch { clause: "stat-structure".into(), what: "semicolon-before-paren-dropped".into(), detail: m.detail } } else { m })?;
+    let doc_errors_in = !src_tree.get_errors().is_empty();
+    let comment_tokens = compare_comments(&sroot, &oroot, !doc_errors_in && cfg.layout.max_blank_lines >= 1, doc_errors_in)?;
+    Ok(PairOk { code_tokens, comment_tokens, stats })
+}
